@@ -336,6 +336,57 @@ def _desugar(e):
     return e
 
 
+def _complement(ranges):
+    out = []; lo = 0
+    for a, b in sorted(ranges):
+        if a > lo: out.append((lo, a - 1))
+        lo = max(lo, b + 1)
+    if lo <= MAXCP: out.append((lo, MAXCP))
+    return tuple(out)
+
+
+def _as_ranges(e):
+    """ranges of a single-character expression (class, one-character literal, choice of those), else None"""
+    if e[0] == "class": return tuple(e[1])
+    if e[0] == "lit" and len(e[1]) == 1: return ((ord(e[1]), ord(e[1])),)
+    if e[0] == "alt":
+        out = []
+        for x in e[1]:
+            r = _as_ranges(x)
+            if r is None: return None
+            out += list(r)
+        return tuple(out)
+    return None
+
+
+def normalize_lookahead(e):
+    """rewrite the idiom `!X _` (X a set of single characters) into the complemented character class; everything else unchanged"""
+    k = e[0]
+    if k == "seq":
+        items = [normalize_lookahead(x) for x in e[1]]
+        out = []; i = 0
+        while i < len(items):
+            x = items[i]
+            if x[0] == "not" and i + 1 < len(items) and items[i + 1][0] in ("any", "class"):
+                r = _as_ranges(x[1])
+                if r is not None:
+                    base = ((0, MAXCP),) if items[i + 1][0] == "any" else tuple(items[i + 1][1])
+                    comp = _complement(r)
+                    # intersection of base and comp
+                    inter = []
+                    for a, b in base:
+                        for c, d in comp:
+                            lo, hi = max(a, c), min(b, d)
+                            if lo <= hi: inter.append((lo, hi))
+                    out.append(("class", tuple(inter))); i += 2; continue
+            out.append(x); i += 1
+        return ("seq", out) if len(out) != 1 else out[0]
+    if k == "alt": return ("alt", [normalize_lookahead(x) for x in e[1]])
+    if k in ("star", "plus", "opt", "not", "and"): return (k, normalize_lookahead(e[1]))
+    if k in ("sepstar", "sepplus"): return (k, normalize_lookahead(e[1]), normalize_lookahead(e[2]))
+    return e
+
+
 def build_nfa(e, nfa, start, self_rule=None, self_start=None, symbols=None):
     """Thompson construction; returns the accepting state of the fragment. `not`/`and` are not regular here."""
     e = _desugar(e)
@@ -484,10 +535,14 @@ def determinate(g, e, follow_chars):
             return
         if k == "alt":
             firsts = [g.first_chars(x)[0] for x in e[1]]
+            inl = [g.inline(x) for x in e[1]]
             for i in range(len(firsts)):
                 for j in range(i + 1, len(firsts)):
                     o = ranges_overlap(firsts[i], firsts[j])
-                    if o: conflicts.append("choice alternatives %d and %d both start with %r" % (i, j, chr(o[0])))
+                    if not o: continue
+                    # two literals in longest-first order: the ordered choice and the set union accept the same whole strings
+                    if inl[i][0] == "lit" and inl[j][0] == "lit" and not (inl[j][1].startswith(inl[i][1]) and inl[j][1] != inl[i][1]) and not follow: continue
+                    conflicts.append("choice alternatives %d and %d both start with %r" % (i, j, chr(o[0])))
             for x in e[1]: walk(x, follow)
             return
         if k in ("star", "plus", "opt"):
